@@ -4,6 +4,7 @@ from __future__ import annotations
 
 import json
 import os
+import re
 import time
 from dataclasses import dataclass, field
 from pathlib import Path
@@ -14,6 +15,9 @@ VERIF = Path(__file__).resolve().parent.parent
 EVIDENCE_DIR = VERIF / "evidence"
 REPLAY_DIR = EVIDENCE_DIR / "replay"
 KNOWN_FILE = VERIF / "known_findings.json"
+
+
+_INLINE_NAMES = re.compile(r"__i\d+_(?=[A-Za-z_])")
 
 
 @dataclass
@@ -57,6 +61,8 @@ class Ctx:
         self.rules_text[rule_id] = text
 
     def ob(self, rule: str, construct: str, ok: bool, detail: str, where: str = "", path: list[str] | None = None) -> bool:
+        # names made up by the inlined view (locals of spliced helpers, hoisted results) are not part of a construct's identity
+        construct = _INLINE_NAMES.sub("", construct)
         # distinct sites with the same textual key get an ordinal (document order), never a line number
         k = self._seen_keys.get((rule, construct), 0) + 1
         self._seen_keys[(rule, construct)] = k
